@@ -526,6 +526,30 @@ MACRO_CORPUS = [
     ("stringify-expanded", "#define STR(x) #x\n#define XSTR(x) STR(x)\n#define V 42\nconst char *a = STR(V), *b = XSTR(V);\n"),
     ("empty-expansion-arg", "#define F \n#define H(a) a\nint r = H(F);\n"),            # fixed 9088520
     ("empty-expansion-arg2", "#define E\n#define F(a) [a]\nint x = F(E) F(E E) E;\n"),
+    # hand-offs: a function-like macro name at the end of a replacement list, arguments from the following text
+    ("handoff", "#define A f\n#define f(x) x A\nint r = A(1);\n"),
+    ("handoff-twice", "#define A f\n#define f(x) x A\nint r = A(1)(2);\n"),
+    ("handoff-chain", "#define A f\n#define B A\n#define f(x) x A B\nint r = B(1);\n"),
+    ("handoff-prefix", "#define A 1 + f\n#define f(x) (x) A\nint r = A(2) | f(3);\n"),
+    ("handoff-fn", "#define f(a) a*g\n#define g(a) f(a)\nint r = f(2)(9);\n"),
+    ("handoff-open-paren", "#define h g(~\n#define g f\n#define f(a) f(2 * (a))\nint r = h 5);\n"),
+    ("handoff-newline", "#define m(a) a(w)\n#define w 0,1\n#define f(a) f(2 * (a))\nint r = m\n(f)^m(m);\n"),
+    # C11 6.10.3.5 EXAMPLE 3 (without the `##` with empty operands, see open-paste-empty), 4, 5 (non-empty part), 7
+    ("std-ex3", "#define x 3\n#define f(a) f(x * (a))\n#undef x\n#define x 2\n#define g f\n#define z z[0]\n#define h g(~\n"
+                "#define m(a) a(w)\n#define w 0,1\n#define t(a) a\n#define p() int\n#define q(x) x\n"
+                "f(y+1) + f(f(z)) % t(t(g)(0) + t)(1);\ng(x+(3,4)-w) | h 5) & m\n(f)^m(m);\np() i[q()] = { q(1) };\n"),
+    ("std-ex3-str", "#define str(x) # x\nchar c[2][6] = { str(hello), str() };\n"),
+    ("std-ex4", "#define str(s) # s\n#define xstr(s) str(s)\n"
+                "#define debug(s, t) printf(\"x\" # s \"= %d, x\" # t \"= %s\", x ## s, x ## t)\n#define glue(a, b) a ## b\n"
+                "#define xglue(a, b) glue(a, b)\n#define HIGHLOW \"hello\"\n#define LOW LOW \", world\"\n"
+                "debug(1, 2);\nglue(HIGH, LOW);\nxglue(HIGH, LOW)\n"),
+    ("std-ex5", "#define t(x,y,z) x ## y ## z\nint j[] = { t(1,2,3) };\n"),
+    ("std-ex7", "#define debug(...) fprintf(stderr, __VA_ARGS__)\n#define showlist(...) puts(#__VA_ARGS__)\n"
+                "#define report(test, ...) ((test)?puts(#test): printf(__VA_ARGS__))\ndebug(\"Flag\");\n"
+                "debug(\"X = %d\\n\", x);\nshowlist(The first, second, and third items.);\n"
+                "report(x>y, \"x is %d but y is %d\", x, y);\n"),
+    ("open-paste-empty", "#define r(x,y) x ## y\nint a[] = { r(2,3), r(4,), r(,5), r(,) };\n"),
+    ("open-paste-empty3", "#define t(x,y,z) x ## y ## z\nint j[] = { t(6,,7) };\n"),
     # the three open findings (minimal inputs)
     ("open-hideset", "#define foo foo + 1\n#define F(b) b\nint r = F(foo);\n"),
     ("open-stringify-spacing", "#define STR(x) #x\nconst char *s = STR(a+b);\n"),
@@ -534,35 +558,72 @@ MACRO_CORPUS = [
 ]
 
 
-def gen_macro_set(rng):
+def gen_macro_set(rng, family="general"):
+    """family "handoff": only hand-offs (no `#`, `##`, no macro names inside arguments, no parenthesised replacement
+    tokens), so that none of the other known differences can occur in it.  family "general": object-/function-like macros, nested, self/mutually recursive, `#`, `##`, and HAND-OFFS: a function-like
+    macro name as the LAST token of a replacement list whose `(arguments)` come from the text after the invocation
+    (`#define A f` … `A(1)`), also in chains (`A -> B -> f`, the body of `f` mentioning `A` again)"""
     names = ["A", "B", "C", "F", "G", "H"]
-    defs, kinds, pastes = [], {}, set()
-    for nm in rng.sample(names, rng.randint(2, 5)):
-        if rng.random() < 0.5:
-            body = " ".join(rng.choice(names + ["1", "2", "+", "*", "x", "(x)"]) for _ in range(rng.randint(1, 5)))
-            defs.append(f"#define {nm} {body}")
-            kinds[nm] = 0
+    chosen = rng.sample(names, rng.randint(2, 5))
+    kinds = {nm: (0 if rng.random() < 0.5 else rng.randint(1, 2)) for nm in chosen}
+    fnames = [n for n in chosen if kinds[n] > 0]
+    defs, pastes, tail = [], set(), {}
+    ho = family == "handoff"
+    if ho and not fnames:
+        kinds[chosen[0]] = 1
+        fnames = [chosen[0]]
+    for nm in chosen:
+        hand_off = fnames and rng.random() < (0.7 if ho else 0.35)
+        if kinds[nm] == 0:
+            toks = [rng.choice(names + ["1", "2", "+", "*", "x"] + ([] if ho else ["(x)"])) for _ in range(rng.randint(0 if hand_off else 1, 4))]
+            if hand_off:
+                t = rng.choice(fnames + [n for n in chosen if n in tail])     # directly, or through another hand-off
+                toks.append(t)
+                tail[nm] = t
+            defs.append(f"#define {nm} {' '.join(toks)}")
         else:
-            params = ["a", "b"][: rng.randint(1, 2)]
+            params = ["a", "b"][: kinds[nm]]
             pool = params + names + ["1", "+", "*", "-"]
             parts = [rng.choice(pool) for _ in range(rng.randint(1, 5))]
-            if rng.random() < 0.25:
+            if not ho and rng.random() < 0.25:
                 parts.insert(rng.randrange(len(parts) + 1), "#" + rng.choice(params))
-            if rng.random() < 0.25 and len(params) == 2:
+            if not ho and rng.random() < 0.25 and len(params) == 2:
                 parts.append("a ## b")
+            elif hand_off:
+                t = rng.choice(fnames)
+                parts.append(t)
+                tail[nm] = t
             defs.append(f"#define {nm}({', '.join(params)}) " + " ".join(parts))
-            kinds[nm] = len(params)
             if "##" in " ".join(parts):
                 pastes.add(nm)
+
+    def arglist(nm):
+        if ho:
+            pool = ["1", "x", "y + 2", "7"]                 # no macro name inside an argument
+        else:
+            pool = ["1", "x", "v2", rng.choice(chosen)] if nm in pastes else ["1", "x", "y + 2", "(3, 4)", "a+b", rng.choice(chosen)]
+        return "(" + ", ".join(rng.choice(pool) for _ in range(kinds[nm])) + ")"
+
+    def final_fn(nm, seen=()):
+        """the function-like macro the hand-off chain starting at `nm` ends in (None: a cycle of object-like ones)"""
+        while nm in tail and kinds[nm] == 0:
+            if nm in seen:
+                return None
+            seen += (nm,)
+            nm = tail[nm]
+        return nm if kinds.get(nm, 0) > 0 else None
+
     uses = []
     for _ in range(rng.randint(1, 3)):
-        nm = rng.choice(list(kinds))
-        if kinds[nm] == 0:
-            uses.append(nm)
-        else:
-            pool = ["1", "x", "v2", rng.choice(list(kinds))] if nm in pastes else ["1", "x", "y + 2", "(3, 4)", "a+b", rng.choice(list(kinds))]
-            args = [rng.choice(pool) for _ in range(kinds[nm])]
-            uses.append(f"{nm}({', '.join(args)})")
+        nm = rng.choice(chosen)
+        use = nm + (arglist(nm) if kinds[nm] else "")
+        # arguments for the name handed off at the end of the replacement list come from the following text
+        t, hops = (tail.get(nm) if kinds[nm] else final_fn(nm)), 0
+        while t and kinds.get(t, 0) > 0 and hops < 2 and rng.random() < 0.85:
+            use += arglist(t)
+            t = tail.get(t)
+            hops += 1
+        uses.append(use)
     return "\n".join(defs) + "\nint r = " + " | ".join(uses) + ";\n"
 
 
@@ -596,27 +657,69 @@ def _paren_from_expansion(src):
     return bool(obj_paren and funclike)
 
 
-def classify_macro(src, st, pout, got, want):
-    """signature of a difference between ppci and gcc -E on a macro set"""
+def _macro_defs(src):
+    """name -> (is function-like, tokens of the replacement list)"""
+    out = {}
+    for m in re.finditer(r"^#define\s+(\w+)(\([^)]*\))?(.*)$", src, flags=re.M):
+        out[m.group(1)] = (m.group(2) is not None, ctokens(m.group(3)))
+    return out
+
+
+def _fn_name_at_end(src):
+    """some replacement list ends in the name of a function-like macro (its arguments must come from later text)"""
+    d = _macro_defs(src)
+    return any(body and body[-1] in d and d[body[-1]][0] for _, body in d.values())
+
+
+def _direction(src, got, want):
+    """does ppci leave a macro name unexpanded that gcc expands (under), or expand one that gcc leaves (over)?"""
+    names = set(_macro_defs(src))
+    under = any(got.count(n) > want.count(n) for n in names)
+    over = any(got.count(n) < want.count(n) for n in names) or (not under and len(got) > len(want))
+    return "under" if under and not over else "over" if over and not under else "mixed" if under else "none"
+
+
+def classify_macro(src, st, pout, got, want, family="general"):
+    """signature of a difference between ppci and gcc -E on a macro set, keyed by the construct involved.  Sets of the
+    family "handoff" contain no `#`, `##`, no macro name inside an argument and no parenthesised replacement tokens:
+    none of the known differences can occur in them, so every difference there gets the hand-off signature and is
+    never absorbed by the open hide-set finding (which needs a macro name inside an argument)."""
+    if family == "handoff":
+        if st != "ok":
+            return "macro:fn-name-at-end-of-replacement:" + st
+        return "macro:fn-name-at-end-of-replacement:expansion-differs"
     if st == "diag":
-        m = re.search(r'Invalidly glued "(\d\w*)"', pout)
-        if m:
+        m = re.search(r'Invalidly glued "([^"]*)"', pout)
+        if m and re.fullmatch(r"\d\w*", m.group(1)):
             return "macro:paste-pp-number"
+        if m and m.group(1).endswith("##"):
+            return "macro:paste-empty-operand"
         if "arguments, expected" in pout and _paren_from_expansion(src):
             return "macro:funclike-name-then-paren-from-expansion"
+        if "arguments, expected" in pout and _has_cycle(src):
+            # the re-expansion of a self-referential name (open hide-set finding) puts a `(`…`)` group from its
+            # replacement list behind a function-like macro name: a spurious invocation with too few arguments
+            return "macro:arg-prescan-loses-hideset"
         return "macro:rejected"
     if st != "ok":
+        if "LineParser" in pout and "##" in src:
+            return "macro:paste-empty-operand"
         return "macro:internal-error:" + st.split(":", 1)[1]
     if _norm_strings(got) == _norm_strings(want):
         return "macro:stringify-spacing"
-    if _paren_from_expansion(src) and _norm_strings(got) != _norm_strings(want):
+    d = _direction(src, _norm_strings(got), _norm_strings(want))
+    if _paren_from_expansion(src) and d in ("over", "none"):
         return "macro:funclike-name-then-paren-from-expansion"
     if _has_cycle(src):
+        # the open finding: a name left unexpanded inside a fully expanded argument is expanded later (ppci expands MORE)
         return "macro:arg-prescan-loses-hideset"
-    return "macro:expansion-differs"
+    if _fn_name_at_end(src):
+        return "macro:fn-name-at-end-of-replacement:expansion-differs"
+    return "macro:expansion-differs:" + d
 
 
-MACRO_NAMES = ["A", "B", "C", "F", "G", "H", "N", "V", "X", "ADD", "PLUS", "STR", "XSTR", "CAT", "XCAT", "foo", "f", "g"]
+MACRO_NAMES = ["A", "B", "C", "F", "G", "H", "N", "V", "X", "ADD", "PLUS", "STR", "XSTR", "CAT", "XCAT", "foo", "f", "g", "h", "m", "w", "t", "p", "q", "r", "x", "z",
+               "str", "xstr", "debug", "glue", "xglue", "HIGHLOW", "LOW", "showlist", "report", "E"]
 
 
 def gcc_pp_many(srcs):
@@ -656,25 +759,28 @@ def gcc_pp_many(srcs):
 
 
 def macro_search(ctx):
-    cases = [(k, s) for k, s in MACRO_CORPUS]
-    for i in range(400 if ctx.thorough else 60):
-        cases.append(("gen", gen_macro_set(ctx.rng)))
-    gouts = gcc_pp_many([s for _, s in cases])
-    if gouts is None:                      # some set is rejected by gcc: fall back to one run per set
+    cases = [(k, s, "handoff" if k.startswith("handoff") else "general") for k, s in MACRO_CORPUS]
+    n = 400 if ctx.thorough else 60
+    for i in range(n):
+        fam = "handoff" if i % 2 else "general"
+        cases.append(("gen-" + fam, gen_macro_set(ctx.rng, fam), fam))
+    gouts = gcc_pp_many([s for _, s, _ in cases])
+    if gouts is None:                      # a marker got lost: fall back to one run per set
         gouts = []
-        for _, s in cases:
+        for _, s, _ in cases:
             ok, g = gcc_pp(s)
             gouts.append(g if ok else None)
-    for (kind, src), gout in zip(cases, gouts):
+    for (kind, src, fam), gout in zip(cases, gouts):
         if gout is None:
             ctx.count("macro_gcc_rejects")
             continue
         ctx.count("eval_macro")
+        ctx.count("eval_macro_" + fam)
         st, pout = run_pp(src)
         want = ctokens(gout)
         got = ctokens(pout) if st == "ok" else st
         if got != want:
-            sig = classify_macro(src, st, pout, got, want)
+            sig = classify_macro(src, st, pout, got, want, fam)
             ctx.count("macro_diff_" + sig.split(":", 1)[1])
             ctx.fail(sig, f"{src!r}: ppci -> {' '.join(got) if isinstance(got, list) else got + ' ' + pout[:80]!r}, gcc -E -> {' '.join(want)!r}",
                      {"source": src, "kind": kind}, impl=got, spec=want)
